@@ -11,7 +11,7 @@ MIRDIR = os.path.join(CACHE, "mir")
 
 def dump_mir(flavour):
     """flavour 'on' | 'off' (overflow checks). Returns path of the MIR text."""
-    h = repo_src_hash()
+    h = os.environ.get("VERIF_MIR_PIN") or repo_src_hash()      # pin: development aid only, never set by ./check
     os.makedirs(MIRDIR, exist_ok=True)
     out = os.path.join(MIRDIR, "%s-%s.mir" % (h, flavour))
     if os.path.exists(out) and os.path.getsize(out) > 100000:
@@ -37,9 +37,13 @@ def dump_mir(flavour):
     with open(out + ".tmp", "w") as f:
         f.write(txt)
     os.replace(out + ".tmp", out)
-    # drop stale dumps of other source hashes
+    # keep the most recent dumps (mutant runs alternate between source trees), drop older ones
+    dumps = sorted([fn for fn in os.listdir(MIRDIR) if fn.endswith(".mir") and fn != "on.mir"],
+                   key=lambda fn: os.path.getmtime(os.path.join(MIRDIR, fn)), reverse=True)
+    keep = set(fn.split("-")[0] for fn in dumps[:12])
     for fn in os.listdir(MIRDIR):
-        if (fn.endswith(".mir") or fn.endswith(".pickle") or fn.startswith("src-")) and not fn.startswith(h) and not fn.startswith("src-" + h) and fn not in ("on.mir",):
+        hh = fn[4:] if fn.startswith("src-") else fn.split("-")[0].split(".")[0]
+        if (fn.endswith(".mir") or fn.endswith(".pickle") or fn.startswith("src-")) and fn != "on.mir" and hh not in keep:
             pth = os.path.join(MIRDIR, fn)
             shutil.rmtree(pth, ignore_errors=True) if os.path.isdir(pth) else os.remove(pth)
     return out
